@@ -71,6 +71,17 @@ CANARIES = [
      "        self._install_tooling()\n        self._activated = True\n        global_probes.add(self)\n        self._ol.__enter__()",
      "        self._activated = True\n        self._install_tooling()\n        self._ol.__enter__()\n        global_probes.add(self)",
      "C05", "silent"),
+    ("neutral-externals-order", "ptera/transform.py",
+     "        for external in sorted(self.external):", "        for external in sorted(self.external, reverse=True):",
+     "C01 C02 C06 C16", "silent"),
+    ("neutral-gensym-prefix", "ptera/transform.py",
+     'return f"_ptera__{next(_IDX)}"', 'return f"_ptera_g{next(_IDX)}"', "C01 C08 C14", "silent"),
+    ("neutral-free-order", "ptera/transform.py",
+     "        for fv in sorted(self.free):", "        for fv in sorted(self.free, reverse=True):", "C01 C04", "silent"),
+    ("neutral-fit-cache-off", "ptera/overlay.py",
+     "                _selector_fit_cache[cachekey] = capmap", "                pass", "C03 C07 C13", "silent"),
+    ("neutral-lock-plain-name", "ptera/overlay.py",
+     "_tooling_lock = threading.RLock()", "_tooling_lock = _the_lock = threading.RLock()", "C08", "silent"),
     ("neutral-interactor-exit-first", "ptera/overlay.py",
      "        if not self.suspended:\n            HandlerCollection.current.set(self.outer)\n        self.interactor.exit()",
      "        self.interactor.exit()\n        if not self.suspended:\n            HandlerCollection.current.set(self.outer)",
@@ -99,9 +110,16 @@ def main():
                                capture_output=True, text=True, env=dict(os.environ, PYTHONPATH=d))
             tests = t.stdout.strip().splitlines()[-1] if t.stdout.strip() else "?"
             env = dict(os.environ, PTERA_SRC=d)
-            r = subprocess.run(["./check", prop, "--tier", "quick"], cwd="/verif", capture_output=True, text=True, env=env)
-            line = [ln for ln in r.stdout.splitlines() if ln.startswith(prop + " ")]
-            verdict = "caught" if r.returncode == 1 else ("silent" if r.returncode == 0 else "HARNESS-ERROR")
+            verdict, line = "silent", []
+            for pr in prop.split():
+                r = subprocess.run(["./check", pr, "--tier", "quick"], cwd="/verif", capture_output=True, text=True, env=env)
+                line = [ln for ln in r.stdout.splitlines() if ln.startswith(pr + " ")]
+                if r.returncode == 1:
+                    verdict = "caught"
+                    break
+                if r.returncode != 0:
+                    verdict = "HARNESS-ERROR"
+                    break
             ok = "OK " if verdict == expect else "BAD"
             results.append((name, prop, expect, verdict, tests, line[-1][:90] if line else ""))
             print(ok, name, prop, "expected", expect, "->", verdict, "| tests:", tests[:40], "|", line[-1][:70] if line else "")
